@@ -147,6 +147,11 @@ def reply (entry : Ctx → Ctx × Bool) (truncate : Msg → Nat → Msg) (fromUD
   let r := entry (newContext q)
   some (finish truncate fromUDP r.1 (base r.1 r.2))
 
+/-- What miekg's packer refuses whatever the size: an extended rcode (above 15) lives in the OPT record's TTL
+field, so a message that carries one and no OPT cannot be put on the wire (`ErrExtendedRcode`); `Handle` then logs
+and sends nothing. -/
+def packable (m : Msg) : Bool := decide (m.rcode ≤ 15) || decide (0 < m.countOpt)
+
 /-- `EntryHandler.Handle`: `pack` is the wire packer of the transport; `none` = no reply is sent. -/
 def handle (entry : Ctx → Ctx × Bool) (truncate : Msg → Nat → Msg) (pack : Msg → Option Bytes)
     (fromUDP : Bool) (q : Msg) : Option Bytes :=
